@@ -24,27 +24,12 @@ PROPERTY_INVS = ["TypeOK", "EachServerGetsRequestOnce", "RequestConservation", "
 CHUNK_INVS = ["RefExact", "LoanFromFree", "NoLeak", "SingleHolder"]
 MODULO_KNOWN = ["ChunksSufficeReqModuloKnown", "ChunksSufficeRespModuloKnown"]
 
-# Genuine defects of /repo found with this machinery (reported to the coordinator; the authoritative list is
-# /verif/known_findings.json -- this table is only consulted for signatures that are not (yet) listed there).
-LOCAL_KNOWN = {
-    "reqres:misroute-dead-client-slot-reuse":
-        "an ActiveRequest that outlives its client keeps the connection INDEX; after another client took the "
-        "slot its responses / is_connected / close go to that client: a PendingResponse of the new client with "
-        "the same channel and request id returns a response written for the dead client's request",
-    "reqres:stale-responses-block-buffer":
-        "responses queued for a dropped PendingResponse stay in the channel; after the channel id is reused "
-        "they occupy the new request's response buffer and the server's responses to it are discarded",
-    "reqres:resp-oom-stale-responses":
-        "responses queued for dropped PendingResponses are not reclaimed until the channel id is reused: "
-        "ActiveRequest::loan fails with OutOfMemory although every limit is respected",
-    "reqres:loan-counter-not-restored":
-        "ActiveRequest::loan increments the per-request loan counter before allocating; when the allocation "
-        "fails the counter stays incremented (later loans fail with ExceedsMaxLoans)",
-    "reqres:req-oom-undelivered-pending":
-        "client data segment = max_servers*2*max_active + max_loans chunks does not cover a pending request "
-        "whose chunk no server holds (server buffer full of requests of dropped pending responses): "
-        "Client::loan fails with OutOfMemory inside the limits (safe overflow for requests disabled)",
-}
+# Signatures of the genuine defects of /repo found with this machinery (listed in /verif/known_findings.json
+# per property: C11 misroute-dead-client-slot-reuse, stale-responses-block-buffer; C08/C02 resp-oom-stale-responses,
+# req-oom-undelivered-pending; C08 loan-counter-not-restored is FIXED in /repo and therefore a violation again
+# if it comes back). The shapes are defined in spec/api/ReqRes.tla (ReqOomKnown, RespOomKnown, LeakWouldRefuse,
+# "stale entries block the buffer") so that an OutOfMemory / a loss / a misroute by any other mechanism stays
+# unexplained.
 KD_SIGNATURE = {
     "stale-responses-block-buffer": "reqres:stale-responses-block-buffer",
     "resp-oom-stale-responses": "reqres:resp-oom-stale-responses",
@@ -62,13 +47,6 @@ _lock = threading.Lock()
 
 
 def report(ctx, v):
-    """ctx.report plus the local table of defects that are not yet in known_findings.json."""
-    listed = {k.get("signature") for k in vp.load_known_findings() if k.get("property") == ctx.pid}
-    if v.signature in LOCAL_KNOWN and v.signature not in listed:
-        if v.signature not in [h[0] for h in ctx.known_hits]:
-            ctx.known_hits.append((v.signature, LOCAL_KNOWN[v.signature]))
-            ctx.note(f"known defect re-observed (local table, to be moved to known_findings.json): {v.signature}")
-        return
     ctx.report(v)
 
 
@@ -143,7 +121,7 @@ def write_module(d, name, extends, body, cfg_text):
 # model checking instances
 
 def mc_instance(ctx, name, c, nc, ns, MaxN, MaxJ, total, invariants, fifo=False, allow_known=True, filt=True,
-                no_death=False, props=True, track_ids=False, static_ports=False, no_hints=False):
+                no_death=False, props=True, track_ids=False, static_ports=False, no_hints=False, copy_only=False):
     """Writes MC_<name> (EXTENDS ReqRes) into the work directory.
     total: bound on the number of requests of all clients together; no_death: ports are never dropped;
     static_ports: every port instance is created before the first request; no_hints: disconnect hints unused."""
@@ -157,6 +135,10 @@ def mc_instance(ctx, name, c, nc, ns, MaxN, MaxJ, total, invariants, fifo=False,
                  f"              => ({sumn}) = 0\n")
     if no_hints:
         body += "         /\\ \\A s \\in Servers, c \\in Clients, ch \\in Chans : ~rst[s][c][ch].hint\n"
+    if copy_only:   # copy API only: no unsent loans; ports are created in index order
+        body += ("         /\\ \\A c \\in Clients : loans[c] = {}\n         /\\ \\A s \\in Servers : rloans[s] = {}\n"
+                 "         /\\ \\A c \\in Clients : (c > 1 /\\ cst[c] # \"none\") => cst[c - 1] # \"none\"\n"
+                 "         /\\ \\A s \\in Servers : (s > 1 /\\ sst[s] # \"none\") => sst[s - 1] # \"none\"\n")
     text = ("SPECIFICATION Spec\nCONSTANTS\n"
             + tla_constants(c, MaxN, MaxJ, fifo, True, allow_known, filt, False, nc, ns, track_ids)
             + "VIEW view\nCONSTRAINT Bound\nCHECK_DEADLOCK FALSE\n"
@@ -171,8 +153,23 @@ MC_ACTIONS = ["CreateClient", "CreateServer", "SendCopy", "LoanRequest", "SendRe
               "DropStale", "SkipClosed", "DropResponse"]
 
 
-def run_mc(ctx, d, module, what, timeout, workers=4, must_hold=True, count=True, coverage=MC_ACTIONS):
+_re_progress = re.compile(r"Progress\(\d+\) at [^:]+:[^:]+:[^:]+: ([\d,]+) states generated[^,]*, ([\d,]+) distinct states found")
+
+
+def run_mc(ctx, d, module, what, timeout, workers=4, must_hold=True, count=True, coverage=MC_ACTIONS, best_effort=False):
     res = vp.tlc(d, module, workers=workers, timeout=timeout, libs=["api"])
+    if res.timed_out and best_effort:
+        # bounded-time exploration of a large instance: the states explored so far satisfied every invariant
+        m = None
+        for m in _re_progress.finditer(res.output):
+            pass
+        if m:
+            res.generated, res.distinct = int(m.group(1).replace(",", "")), int(m.group(2).replace(",", ""))
+        with _lock:
+            vp.record_tlc(ctx, what + " (time-bounded, incomplete)", res, count=res.violated is None)
+            ctx.note(f"{what}: exploration stopped by the time limit after {res.distinct} distinct states "
+                     f"(no invariant violated so far)")
+        return res
     with _lock:
         vp.record_tlc(ctx, what, res, count=count and res.violated is None)
     if res.timed_out:
